@@ -5,6 +5,7 @@ import re
 from .. import clone, copyrule, tables
 from ..facts import AnalysisBroken
 from ..flow import lvalue_key, is_assign, _strip_casts
+from ..oasfields import norm
 
 EXPLANATION = ('R-COPY: every field of Polygon/Label/Reference/FlexPath(+Element)/RobustPath(+Element)/Curve/RaithData/Cell/Library '
                'is copied on every path of copy_from, owning fields through their copier; the hand-rolled filter copies in '
@@ -170,7 +171,55 @@ def check_cell_collectors(ctx, db):
         if e in ('polygons', 'labels'):
             heads.append(('Cell::get_%s[own]' % e, f.loc(), canon_member(f, next(s for s in ifs if s.child('cond').text() == 'filter'))))
     clone.check_family(ctx, 'R-CLONE', 'Cell::get_*[apply_repetitions]', tails_rep, 4)
-    clone.check_family(ctx, 'R-CLONE', 'Cell::get_*[depth]', tails_depth, 4)
+    # the recursion into references, decided per collector from what it computes (not by comparing texts): the call runs exactly
+    # when depth != 0, once for every entry of reference_array, hands on depth-1 (or -1 for "no limit") and its other parameters unchanged
+    from .. import loops as LP, minieval
+    for e in ELEMS:
+        f = db.fn('gdstk::Cell::get_' + e)
+        key = 'Cell::get_%s/recursion' % e
+        calls = [c for c in f.walk() if c.k == 'CXXMemberCallExpr' and c.callee == 'gdstk::Reference::get_' + e]
+        if len(calls) != 1:
+            ctx.violation('R-SHAPE', key, f.loc(), 'expected exactly one recursive call Reference::get_%s, found %d' % (e, len(calls)))
+            continue
+        c = calls[0]
+        L = LP.enclosing_loop(c)
+        why = None
+        if L is None:
+            why = 'the recursive call is not inside a loop over reference_array'
+        else:
+            lp = LP.Loop(f, L)
+            ep = lp.addr(_strip_casts(c.child('obj')), c) if c.child('obj') is not None else None
+            if ep is None:
+                ep = lp.lin(_strip_casts(c.child('obj')), c) if c.child('obj') is not None else None
+            if lp.visits(ep, 'this->reference_array.items', {'this->reference_array.count': 1}) is None or not LP.unconditional_in(c, L):
+                why = 'the loop around the recursive call does not visit every entry of reference_array exactly once'
+        if why is None:
+            conds = [(norm(cnd.text()), pol) for cnd, pol in tables.path_conds(L)]
+            want = [('(depth != 0)', True)]
+            got = [(('(depth != 0)', not pol) if t == '(depth == 0)' else (t, pol)) for t, pol in conds]
+            if got != want:
+                why = 'the recursion runs under %s instead of exactly `depth != 0`' % (got or 'no condition')
+        callee = next((g for g in db.by_qn.get('gdstk::Reference::get_' + e, []) if len(g.params) == len(c.args)), None)
+        if why is None and callee is None:
+            raise AnalysisBroken('Reference::get_%s: declaration with %d parameters not found' % (e, len(c.args)))
+        if why is None:
+            for prm, a in zip(callee.params, c.args):
+                a0 = _strip_casts(a)
+                if prm['n'] == 'depth':
+                    for v, w in ((5, 4), (1, 0), (-1, -1), (-7, -1)):
+                        try:
+                            r = minieval.value_at(db, a, typed={'int64_t': v})
+                        except AnalysisBroken as ex:
+                            why = 'the depth handed to references could not be evaluated (%s)' % ex
+                            break
+                        if r != w:
+                            why = 'with depth %d the references are queried at depth %s instead of %d' % (v, r, w)
+                            break
+                elif not (a0.k == 'DeclRefExpr' and a0.dk == 'param' and a0.n == prm['n']):
+                    why = 'argument `%s` is passed for the parameter `%s` of Reference::get_%s' % (norm(a.text()), prm['n'], e)
+                if why:
+                    break
+        ctx.check(why is None, 'R-SHAPE', key, c.loc(), 'references are descended exactly when depth != 0, each once, at depth-1 (or -1 for unlimited), with the other parameters handed on', why)
     clone.check_family(ctx, 'R-CLONE', 'Cell::get_{polygons,labels}[own]', heads, 2)
     # absolute form of the two tails (reference text confirmed by reading)
     ref_rep = ['if ($apply_repetitions)', 'uint64_t v0 = $result.count', 'for (uint64_t v1 = this->start; (v1 < v0); (v1++))', '$result[v1]->apply_repetition($result)']
@@ -178,10 +227,6 @@ def check_cell_collectors(ctx, db):
     got = [re.sub(r'v\d+ = v\d+;', 'v1 = this->start;', g) if g.startswith('for') else g for g in got]
     ctx.check(got[0] == ref_rep[0] and got[1] == ref_rep[1] and 'apply_repetition($result)' in got[3] and re.match(r'for \(uint64_t v\d+ = v\d+; \(v\d+ < v\d+\); \(v\d+\+\+\)\)', tails_rep[0][2].splitlines()[2].strip()) is not None,
               'R-SHAPE', 'Cell::get_*/apply-range', tails_rep[0][1], 'apply_repetition runs exactly over the indices [start, finish) captured before the loop')
-    d = tails_depth[0][2]
-    ok = d.startswith('if (($depth != 0))') and '(($depth > 0) ? ($depth - 1) : (-1))' in d
-    ctx.check(ok, 'R-SHAPE', 'Cell::get_*/depth-step', tails_depth[0][1], 'recursion is guarded by depth != 0 and passes depth > 0 ? depth - 1 : -1',
-              'recursion guard / depth step differs from `if (depth != 0) ... depth > 0 ? depth - 1 : -1`: ' + d.splitlines()[0] + ' … ' + (d.splitlines()[3] if len(d.splitlines()) > 3 else ''))
 
 
 def check_flatten(ctx, db):
@@ -241,5 +286,5 @@ def run(ctx):
 MANIFEST = dict(
     text='Decides structural necessary conditions of hierarchy queries on every path: R-COPY (every field of every element/cell/library struct copied by copy_from and by the hand-rolled filter copies, owning fields never aliased), the four Reference::get_* collectors are one clone family (same depth handed down, one output per (element, offset), copy for all but the last offset, placement transform with origin + offset, attached repetition mapped by the same linear part, and Repetition::transform itself is identically m R(rot) diag(1, +-1) on every kind and parameter valuation), the apply_repetitions and depth blocks of the four Cell::get_* are identical and have the confirmed shape ([start, finish) range; depth > 0 ? depth - 1 : -1 under depth != 0), Cell::flatten expands only Cell references, collects all four kinds at depth -1 into its own arrays and re-examines the index after remove_unordered. Geometric equality of hierarchical vs flattened shapes is not decided.',
     note='Trusted: clang front end, gx, sa rules; record layouts come from clang (a new field is picked up automatically). Exemptions: `owner` (belongs to the Python wrapper), Reference.cell/rawcell (non-owning by design).',
-    technique='clone-family comparison over α-normalised typed ASTs + record-layout-driven copy completeness/depth rule',
+    technique='record-layout-driven copy completeness/depth rule + loop summaries, path conditions and argument evaluation for the recursion into references + symbolic affine identities + clone-family comparison over α-normalised typed ASTs for the remaining sibling collectors',
     design='§4 C06')
